@@ -593,7 +593,9 @@ func newNode(sink ribdrv.Sink, fwd bool, fault string, names Names) (*node, erro
 	n := &node{mirror: ribdrv.NewMirror()}
 	opts := []server.ServerOpt{server.WithPostChangeRIBHook(n.mirror.Hook), server.WithVRFs([]string{names.VRF}),
 		server.WithRIBResolvedEntryHook(func(map[string]*aft.RIB, constants.OpType, string, constants.AFT, any, ...rib.ResolvedDetails) {})}
-	if !fwd {
+	if !fwd || fault == "rejectForwardRefs" {
+		// fault rejectForwardRefs: a server that fails an operation whose references are not installed yet, although
+		// the tests (and the trace) assume a server that holds and re-orders them
 		opts = append(opts, server.WithNoRIBForwardReferences())
 	}
 	srv, err := server.New(opts...)
